@@ -672,11 +672,21 @@ void vt_native_assume(int); void vt_native_assert(int, const char *); void vt_na
 # define VT_ASSERT(c, m) vt_native_assert(!!(c), m)
 # define VT_COVER(m) vt_native_cover(m)
 #endif
+#if defined(__CPROVER__)
+uint64_t __CPROVER_uninterpreted_vt_fmul(uint64_t, uint64_t); uint64_t __CPROVER_uninterpreted_vt_fdiv(uint64_t, uint64_t);
+uint64_t __CPROVER_uninterpreted_vt_fadd(uint64_t, uint64_t); uint64_t __CPROVER_uninterpreted_vt_fsub(uint64_t, uint64_t);
+#define VT_UF(name, cop) static inline double vt_uf_##name(double a, double b) { union { double d; uint64_t u; } x, y, r; x.d = a; y.d = b; r.u = __CPROVER_uninterpreted_vt_##name(x.u, y.u); return r.d; }
+#else
+#define VT_UF(name, cop) static inline double vt_uf_##name(double a, double b) { return a cop b; }
+#endif
+VT_UF(fmul, *) VT_UF(fdiv, /) VT_UF(fadd, +) VT_UF(fsub, -)
 static inline uint64_t ir2c_umax(uint64_t a, uint64_t b) { return a > b ? a : b; }
 static inline uint64_t ir2c_umin(uint64_t a, uint64_t b) { return a < b ? a : b; }
 static inline int64_t ir2c_smax(int64_t a, int64_t b) { return a > b ? a : b; }
 static inline int64_t ir2c_smin(int64_t a, int64_t b) { return a < b ? a : b; }
 '''
+
+UF_OPS = set()   # float operations abstracted by uninterpreted functions (--uf=fmul,fdiv): sound for equality proofs
 
 BINOPS = {'add': '+', 'sub': '-', 'mul': '*', 'and': '&', 'or': '|', 'xor': '^', 'shl': '<<', 'lshr': '>>',
           'udiv': '/', 'urem': '%'}
@@ -887,6 +897,7 @@ class FuncTrans:
             while p.peek()[1] in FASTMATH: p.next()
             ty = p.ptype(); a = parse_const(p, ty); p.expect(','); b = parse_const(p, ty)
             if op == 'frem': s.setl(dest, ty, 'fmod(%s, %s)' % (s.val(a), s.val(b)))
+            elif op in UF_OPS and repr(em.resolve(ty)) == 'double': s.setl(dest, ty, 'vt_uf_%s(%s, %s)' % (op, s.val(a), s.val(b)))
             else: s.setl(dest, ty, '(%s %s %s)' % (s.val(a), FBIN[op], s.val(b)))
             return
         if op == 'fneg':
@@ -1155,6 +1166,8 @@ class FuncTrans:
 
 def main():
     import json
+    for a in sys.argv[3:]:
+        if a.startswith('--uf='): UF_OPS.update(x for x in a[5:].split(',') if x)
     src = open(sys.argv[1]).read()
     m = parse_module(src)
     em = Emitter(m)
